@@ -170,3 +170,62 @@ def unpreceded_exits(F, crate, region, is_event, is_exempt_exit=lambda e: False,
     w = _Walker(F, crate, is_event, is_exempt_exit, depth)
     w.value(region, {False})
     return w.hits
+
+
+def eval_sequence(node):
+    """nodes of a HIR subtree in (approximate) evaluation order: operands before the operation that uses them, the
+    receiver of a method call before its arguments, statements in order, a closure's body at the position where the
+    closure is handed over (for `a.or_else(|| b)`: a, then b).  Returns a list; the index is the sequence number."""
+    out = []
+
+    def go(n):
+        if isinstance(n, list):
+            for x in n:
+                go(x)
+            return
+        if not isinstance(n, dict):
+            return
+        k = n.get("k")
+        if k is None:
+            for v in n.values():
+                if isinstance(v, (dict, list)):
+                    go(v)
+            return
+        if k == "MethodCall":
+            go(n.get("recv"))
+            go(n.get("args"))
+            out.append(n)
+            return
+        if k == "Call":
+            go(n.get("args"))
+            out.append(n)
+            return
+        if k == "Block":
+            go(n.get("stmts"))
+            go(n.get("expr"))
+            return
+        if k in ("LetStmt", "Let"):
+            go(n.get("init"))
+            go(n.get("els"))
+            out.append(n)
+            return
+        if k == "If":
+            go(n.get("cond"))
+            out.append(n)
+            go(n.get("then"))
+            go(n.get("else"))
+            return
+        if k == "Match":
+            go(n.get("scrut"))
+            out.append(n)
+            for a in n.get("arms") or []:
+                go(a.get("guard"))
+                go(a.get("body"))
+            return
+        out.append(n)
+        for key, v in n.items():
+            if key in ("pat", "params") or not isinstance(v, (dict, list)):
+                continue
+            go(v)
+    go(node)
+    return out
